@@ -25,6 +25,8 @@ def damage_options(size, P):
         tr.update((k * P - 1, k * P, k * P + 1))
     opts += [("trunc", n) for n in sorted(tr) if 0 <= n < size]
     opts.append(("rmdir", 0))       # the whole top-level directory that holds the file disappears (the file itself if it has none)
+    opts.append(("wrong", 0))       # same length, every byte different (swapped with another file, shifted by an inserted byte)
+    opts.append(("dangling", 0))    # replaced by a symbolic link that leads nowhere
     return opts
 
 
@@ -219,6 +221,8 @@ class RecheckProp(Prop):
         for _ in range(dmg_n):
             f = rng.randrange(nfiles)
             kind, arg = rng.choice(damage_options(t["files"][f]["size"], P))
+            if kind == "wrong" and sh in ("DSYM", "DEXT", "DL"):
+                kind = "flip"           # (aliased members: the state is observed byte by byte - keep it small)
             damage.append({"file": f, "kind": kind, "arg": arg})
         if rng.random() < 0.12:       # contents in which the byte one piece length earlier is the same byte
             pat = rng.choice(("const", "period"))
@@ -343,7 +347,7 @@ class C16(RecheckProp):
             P = rng.choice(self.plens(tier))
             c = self.mk(rng, P, v, src, k % 4, cl)
             if c["tree"].get("single"):
-                c["damage"] = [d for d in c["damage"] if d["kind"] not in ("remove", "rmdir")]
+                c["damage"] = [d for d in c["damage"] if d["kind"] not in ("remove", "rmdir", "dangling")]
             out.append(c)
         out += periodic_cases(self, rng, cl) + missing_dir_cases(self, rng, cl)
         out += big_piece_cases(self, rng, cl, [[], [{"file": 0, "kind": "flip", "arg": 2 ** 20 + 7}],
